@@ -41,7 +41,10 @@ def run_C13(res, tier, seed, t_end):
                 forms.append((tag, db, 'from_url(db kw)', fakeredis.FakeRedis.from_url('redis://localhost:6379', db=db, server=srv)))
                 forms.append((tag, db, 'aio(server,db)', far.FakeRedis(server=srv, db=db)))
                 forms.append((tag, db, 'aio.from_url', far.FakeRedis.from_url('redis://localhost:6379/%d' % db, server=srv)))
-        fresh = [('F%d' % i, 0, 'fresh', f()) for i, f in enumerate([lambda: fakeredis.FakeStrictRedis(), lambda: fakeredis.FakeRedis(),
+        fresh = [('F%d' % i, 0, 'fresh', f()) for i, f in enumerate([lambda: fakeredis.FakeStrictRedis(host='redis.example'), lambda: fakeredis.FakeStrictRedis(host='redis.example'),
+                 lambda: fakeredis.FakeRedis(host='localhost', port=6380), lambda: fakeredis.FakeRedis(host='localhost', port=6380, db=0),
+                 lambda: fakeredis.FakeStrictRedis(host='localhost', version=6), lambda: fakeredis.FakeStrictRedis(host='localhost', version=6),
+                 lambda: far.FakeRedis(host='redis.example'), lambda: far.FakeRedis(host='redis.example'),lambda: fakeredis.FakeStrictRedis(), lambda: fakeredis.FakeRedis(),
                  lambda: fakeredis.FakeStrictRedis.from_url('redis://localhost'), lambda: far.FakeRedis(),
                  lambda: fakeredis.FakeStrictRedis.from_url('redis://localhost'), lambda: fakeredis.FakeRedis.from_url('redis://localhost/0'),
                  lambda: far.FakeRedis.from_url('redis://localhost'), lambda: far.FakeRedis.from_url('redis://localhost')])]
@@ -101,10 +104,26 @@ def plain(r):
     return r
 
 
-def run_C17(res, tier, seed, t_end):
+def run_C17(res, tier, seed, t_end, only_buffers=False, prop='C17'):
     """decode_responses=True decodes exactly the bulk strings at every depth; False returns bytes"""
     real_time()
     rng = random.Random(seed + 17)
+    if only_buffers:
+        rawc = fakeredis.FakeStrictRedis()
+        for arg in (memoryview(b'abc\r\ndef'), b'abc\r\ndef', memoryview(b''), memoryview(bytes(range(256)) * 40), bytearray(b'xyz') if False else b'xyz'):
+            try:
+                rawc.set('mv', arg); got = rawc.get('mv'); rawc.rpush('mvl', arg, b'x', arg); gl = rawc.lrange('mvl', 0, -1); rawc.delete('mvl')
+                p = rawc.pipeline(); p.set('mv2', arg); p.get('mv2'); pp = p.execute()
+                ok = rawc.ping()
+            except Exception as e:      # noqa
+                got, gl, ok, pp = repr(e), None, False, None
+            res.evaluations += 1
+            res.cells.add(('buffer-arg', type(arg).__name__, len(bytes(arg)) > 100))
+            if got != bytes(arg) or gl != [bytes(arg), b'x', bytes(arg)] or ok is not True or pp != [True, bytes(arg)]:
+                res.add(finding(prop, 'buffer_arguments', 'a %s argument of %d bytes: SET/GET gave %r, RPUSH/LRANGE %r, pipeline %r, then PING %r' % (
+                    type(arg).__name__, len(bytes(arg)), str(got)[:80], str(gl)[:80], str(pp)[:80], ok)))
+                return
+        return
     texts = ['', 'a', 'héllo', '日本', 'x' * 300, '0', '\r\n', 'a b']
     for rnd in range(10 if tier == 'quick' else 200):
         raw = fakeredis.FakeStrictRedis(decode_responses=False)
@@ -176,6 +195,98 @@ def run_C17(res, tier, seed, t_end):
             res.add(finding('C17', 'decode_deep', 'pub/sub message %r for %r' % (m, v1)))
             return
         ps.close()
+        # every subscriber gets its own view of a message: a decoding reader must not change what a raw reader receives (and vice versa)
+        srv2 = fakeredis.FakeServer()
+        rawc, decc, lat = (fakeredis.FakeStrictRedis(server=srv2), fakeredis.FakeStrictRedis(server=srv2, decode_responses=True),
+                           fakeredis.FakeStrictRedis(server=srv2, decode_responses=True, encoding='latin-1'))
+        subs = [(decc.pubsub(), 'dec'), (rawc.pubsub(), 'raw'), (lat.pubsub(), 'latin-1'), (rawc.pubsub(), 'raw2')]
+        if rnd % 2:
+            subs.reverse()
+        for psx, _ in subs:
+            psx.subscribe('ch'); psx.psubscribe('c*')
+            psx.get_message(timeout=0.1); psx.get_message(timeout=0.1)
+        payload = 'héllo wörld'.encode('utf-8') if rnd % 3 else b'caf\xc3\xa9'
+        rawc.publish('ch', payload)
+        for psx, kind in subs:
+            for _ in range(2):
+                m = psx.get_message(timeout=0.5)
+                want = payload if kind.startswith('raw') else payload.decode('utf-8' if kind == 'dec' else 'latin-1')
+                wch = b'ch' if kind.startswith('raw') else 'ch'
+                res.evaluations += 1
+                if not m or m['data'] != want or m['channel'] != wch or type(m['data']) is not type(want):
+                    res.add(finding('C17', 'subscribers_do_not_share_a_reply', 'subscriber %s got %r, expected data %r' % (kind, m, want)))
+                    return
+            psx.close()
+        # decoding is per client (its own encoding and error handler) and all-or-nothing per reply
+        rawc.rpush('mixed', 'text', b'\xff\xfe', 'more'); rawc.set('short', b'caf\xe9'); rawc.set('u', 'é'.encode('utf-8'))
+        strict = fakeredis.FakeStrictRedis(server=srv2, decode_responses=True)
+        repl = fakeredis.FakeStrictRedis(server=srv2, decode_responses=True, encoding_errors='replace')
+        order = [repl, strict, lat] if rnd % 2 else [lat, strict, repl]
+        for cl in order:
+            for key, cmd in (('short', lambda c: c.get('short')), ('u', lambda c: c.get('u')), ('mixed', lambda c: c.lrange('mixed', 0, -1)),
+                             ('pipe', lambda c: (lambda p: (p.get('u'), p.lrange('mixed', 0, -1), p.execute())[-1])(c.pipeline()))):
+                try:
+                    got = ('ok', cmd(cl))
+                except UnicodeDecodeError:
+                    got = ('UnicodeDecodeError',)
+                except Exception as e:      # noqa
+                    got = ('exc', repr(e))
+                enc = 'latin-1' if cl is lat else 'utf-8'
+                err = 'replace' if cl is repl else 'strict'
+                vals = {'short': b'caf\xe9', 'u': 'é'.encode('utf-8')}
+
+                def d(b):
+                    return b.decode(enc, err)
+                try:
+                    if key in vals:
+                        want = ('ok', d(vals[key]))
+                    elif key == 'mixed':
+                        want = ('ok', [d(b'text'), d(b'\xff\xfe'), d(b'more')])
+                    else:
+                        want = ('ok', [d(vals['u']), [d(b'text'), d(b'\xff\xfe'), d(b'more')]])
+                except UnicodeDecodeError:
+                    want = ('UnicodeDecodeError',)
+                res.evaluations += 1
+                if got != want:
+                    res.add(finding('C17', 'decoding_is_per_client', '%s/%s client, %s: got %r, expected %r' % (enc, err, key, got, want)))
+                    return
+        # arguments of every buffer type reach the server as the same bytes
+        for arg in (memoryview(b'abc\r\ndef'), b'abc\r\ndef', memoryview(b''), memoryview(bytes(range(256)) * 40)):
+            try:
+                rawc.set('mv', arg); got = rawc.get('mv'); rawc.rpush('mvl', arg, b'x', arg); gl = rawc.lrange('mvl', 0, -1); rawc.delete('mvl')
+                ok = rawc.ping()
+            except Exception as e:      # noqa
+                got, gl, ok = repr(e), None, False
+            res.evaluations += 1
+            if got != bytes(arg) or gl != [bytes(arg), b'x', bytes(arg)] or ok is not True:
+                res.add(finding('C17', 'buffer_arguments', 'SET/RPUSH with a %s argument of %d bytes: read back %r / %r' % (type(arg).__name__, len(bytes(arg)), str(got)[:80], str(gl)[:80])))
+                return
+
+
+def run_C19_cache(res, tier, seed, t_end):
+    """the script cache is changed by SCRIPT LOAD / EVAL / SCRIPT FLUSH only: not by the number of scripts, FLUSHALL, FLUSHDB, outages or other servers"""
+    real_time()
+    for version in (6, 7):
+        srv = fakeredis.FakeServer(version=version)
+        r = fakeredis.FakeStrictRedis(server=srv)
+        first = r.script_load('return 0')
+        shas = [r.script_load('return %d + %d' % (i, version)) for i in range(1, 700 if tier == 'quick' else 3000)]
+        steps = [('many scripts', lambda: None), ('FLUSHALL', r.flushall), ('FLUSHALL ASYNC', lambda: r.execute_command('FLUSHALL', 'ASYNC')), ('FLUSHDB', r.flushdb),
+                 ('MULTI FLUSHALL EXEC', lambda: (lambda p: (p.flushall(), p.execute()))(r.pipeline())), ('SWAPDB', lambda: r.swapdb(0, 1)),
+                 ('outage', lambda: (setattr(srv, 'connected', False), setattr(srv, 'connected', True))),
+                 ('another server', lambda: fakeredis.FakeStrictRedis(server=fakeredis.FakeServer()).script_flush())]
+        for name, act in steps:
+            act()
+            got = r.script_exists(first, shas[0], shas[-1], 'f' * 40)
+            res.evaluations += 1
+            res.cells.add(('script-cache', name))
+            if got != [True, True, True, False]:
+                res.add(finding('C19', 'cache_changed_only_by_script_commands', 'after %s: SCRIPT EXISTS first/early/last/unknown = %r' % (name, got)))
+                return
+        r.script_flush()
+        if r.script_exists(first, shas[-1]) != [False, False]:
+            res.add(finding('C19', 'cache_changed_only_by_script_commands', 'SCRIPT FLUSH left scripts behind'))
+            return
 
 
 def _all_bytes(x):
@@ -208,7 +319,8 @@ def run_C20(res, tier, seed, t_end):
         srv = fakeredis.FakeServer()
         r = fakeredis.FakeStrictRedis(server=srv)
         r.set('a', '1'); r.rpush('l', 'x'); r.set('t', 'v', ex=1000); r.script_flush()
-        before = (r.dbsize(), r.get('a'), r.lrange('l', 0, -1), r.ttl('t') > 0)
+        sha = r.script_load('return %d' % rnd)
+        before = (r.dbsize(), r.get('a'), r.lrange('l', 0, -1), r.ttl('t') > 0, r.script_exists(sha))
         srv.connected = False
         for c in [('GET', 'a'), ('SET', 'a', '2'), ('DEL', 'a'), ('FLUSHALL',), ('RPUSH', 'l', 'y'), ('PING',), ('MULTI',)]:
             res.evaluations += 1
@@ -228,7 +340,7 @@ def run_C20(res, tier, seed, t_end):
         except redis.ConnectionError:
             pass
         srv.connected = True
-        after = (r.dbsize(), r.get('a'), r.lrange('l', 0, -1), r.ttl('t') > 0)
+        after = (r.dbsize(), r.get('a'), r.lrange('l', 0, -1), r.ttl('t') > 0, r.script_exists(sha))
         res.cells.add(('outage', rnd % 3))
         if before != after:
             res.add(finding('C20', 'reconnect_restores', 'before %r after %r' % (before, after)))
@@ -265,6 +377,10 @@ def run_C20(res, tier, seed, t_end):
         else:
             ps = pipe = victim = None
             gc.collect()
+        if rnd % 2:
+            # the next command after the close happens on ANOTHER server of the same process: it must not take part in the clean-up
+            other = fakeredis.FakeStrictRedis(server=fakeredis.FakeServer())
+            other.set('x', '1'); other.publish('ch', 'elsewhere')
         n = pub.publish('ch', 'm2')
         pub.set('a', 'changed')
         res.evaluations += 1
